@@ -134,3 +134,63 @@ Proof.
   - apply krig_matrix_pd; assumption.
   - intros i Hi. rewrite (Hw i Hi). symmetry. apply (krig_solve_correct n Qm rows var y z Hs i Hi).
 Qed.
+
+(* ------------------------------------------------------------------ several structures: block-diagonal precision *)
+
+Lemma block_diag_quad n Qm r x :
+  fdot (n + block_size r) x (fmv (n + block_size r) (block_diag ((n, Qm) :: r)) x) ==
+  fdot n x (fmv n (get Qm) x) + fdot (block_size r) (fun i => x (n + i)%nat) (fmv (block_size r) (block_diag r) (fun i => x (n + i)%nat)).
+Proof.
+  unfold fdot. rewrite sumn_split. apply Qplus_comp.
+  - apply sumn_ext. intros i Hi. apply Qmult_comp; [reflexivity|]. unfold fmv. rewrite sumn_split.
+    rewrite (sumn_zero (block_size r)).
+    + rewrite Qplus_0_r. apply sumn_ext. intros l Hl. cbn [block_diag].
+      destruct (Nat.ltb_spec i n); [|lia]. destruct (Nat.ltb_spec l n); [|lia]. reflexivity.
+    + intros l _. cbn [block_diag]. destruct (Nat.ltb_spec i n); [|lia]. destruct (Nat.ltb_spec (n + l) n); [lia|]. ring.
+  - apply sumn_ext. intros i Hi. apply Qmult_comp; [reflexivity|]. unfold fmv. rewrite sumn_split.
+    rewrite (sumn_zero n).
+    + rewrite Qplus_0_l. apply sumn_ext. intros l Hl. cbn [block_diag].
+      destruct (Nat.ltb_spec (n + i) n); [lia|]. destruct (Nat.ltb_spec (n + l) n); [lia|].
+      replace (n + i - n)%nat with i by lia. replace (n + l - n)%nat with l by lia. reflexivity.
+    + intros l Hl. cbn [block_diag]. destruct (Nat.ltb_spec (n + i) n); [lia|]. destruct (Nat.ltb_spec l n); [|lia]. ring.
+Qed.
+
+Lemma block_diag_psd blocks : Forall (fun b => fpsd (fst b) (get (snd b))) blocks -> fpsd (block_size blocks) (block_diag blocks).
+Proof.
+  induction 1 as [|[n Qm] r Hb _ IH]; intro x.
+  - cbn [block_size]. unfold fdot. cbn [sumn]. lra.
+  - cbn [block_size]. rewrite block_diag_quad. cbn [fst snd] in Hb.
+    pose proof (Hb x). pose proof (IH (fun i => x (n + i)%nat)). lra.
+Qed.
+
+Lemma fpd_fpsd n A : fpd n A -> fpsd n A.
+Proof.
+  intros H y. destruct (Qlt_le_dec (fdot n y (fmv n A y)) 0) as [L|L]; [|exact L]. exfalso.
+  assert (Hz : forall k, (k < n)%nat -> y k == 0).
+  { intros k Hk. destruct (Qeq_dec (y k) 0) as [E|E]; [exact E|]. exfalso.
+    assert (0 < fdot n y (fmv n A y)) by (apply H; exists k; split; assumption). lra. }
+  assert (fdot n y (fmv n A y) == 0) by (unfold fdot; apply sumn_zero; intros k Hk; rewrite (Hz k Hk); ring). lra.
+Qed.
+
+Lemma block_diag_pd blocks : Forall (fun b => fpd (fst b) (get (snd b))) blocks -> fpd (block_size blocks) (block_diag blocks).
+Proof.
+  induction 1 as [|[n Qm] r Hb Hr IH]; intros x [i [Hi Hx]].
+  - cbn [block_size] in Hi. lia.
+  - cbn [block_size] in *. rewrite block_diag_quad. cbn [fst snd] in Hb.
+    assert (Hrp : Forall (fun b => fpsd (fst b) (get (snd b))) r).
+    { clear -Hr. induction Hr as [|b bs H1 _ IHf]; constructor; [apply fpd_fpsd, H1|exact IHf]. }
+    destruct (Nat.lt_ge_cases i n) as [L|L].
+    + assert (0 < fdot n x (fmv n (get Qm) x)) by (apply Hb; exists i; split; assumption).
+      pose proof (block_diag_psd r Hrp (fun k => x (n + k)%nat)). lra.
+    + assert (0 < fdot (block_size r) (fun k => x (n + k)%nat) (fmv (block_size r) (block_diag r) (fun k => x (n + k)%nat))).
+      { apply IH. exists (i - n)%nat. split; [lia|]. replace (n + (i - n))%nat with i by lia. exact Hx. }
+      pose proof (fpd_fpsd n (get Qm) Hb x). lra.
+Qed.
+
+Lemma block_diag_mat_pd blocks :
+  Forall (fun b => fpd (fst b) (get (snd b))) blocks -> fpd (block_size blocks) (get (block_diag_mat blocks)).
+Proof.
+  intro H. apply (fpd_ext (block_size blocks) (block_diag blocks)).
+  - intros i j Hi Hj. unfold block_diag_mat. rewrite get_mk by assumption. reflexivity.
+  - apply block_diag_pd, H.
+Qed.
